@@ -1,16 +1,16 @@
-(* C26, second part: what the typed document (Run/TypedDoc.v: td_build) guarantees, and why the type the executor
-   completes a field with (`field.ty()`, the type of the field's definition on the selection set's PARENT type) is
-   the type of the field on the concrete OBJECT type, outside the known class known_covariant:
+(* C26, second part: what the typed document (Run/TypedDoc.v: td_build) guarantees, and how the type the executor
+   completes a field with (the type of the field on the concrete OBJECT type) relates to the type the sub-selections
+   were typed under (`field.ty()`, the type of the field's definition on the selection set's PARENT type):
      rs_typed s C x      : the selection x was typed in a selection set whose parent type is C
      td_build_typed      : td_build produces typed selections (operation on the root type, fragments on their
                            type conditions)
-     field_type_stable   : if the object type otn satisfies the type condition C and the field is not one that an
-                           object type refines, C.f and otn.f have the same type
+     field_type_narrows  : if the object type otn satisfies the type condition C, every object type possible for
+                           the named type of otn.f is possible for the named type of C.f (sch_impl_covariant)
      exec invariant      : every selection the executor collects for an object of type otn is a node of the
                            document typed at a parent C that otn satisfies *)
 From Coq Require Import ZArith Lia List.
 From ApolloVerif Require Import Base.Chars Ast.Ast Schema.Model Run.Json Run.JsonLemmas Run.Coerce Run.CoerceProofs
-  Run.TypedDoc Run.Prog Run.Execute Run.ExecTop Run.RefExecute Run.ExecKnown Run.ExecProofs Run.ExecRefDefs
+  Run.TypedDoc Run.Prog Run.Execute Run.ExecTop Run.RefExecute Run.ExecProofs Run.ExecRefDefs
   Run.ExecRefInv Run.ExecRefFuel Run.ExecRefCollect.
 Import ListNotations.
 Local Open Scope nat_scope.
@@ -137,17 +137,29 @@ Definition sch_no_meta_fields (s : schema) : Prop :=
 
 Lemma sch_exec_wf_spec s : sch_exec_wf s = true -> sch_names_unique s /\ sch_no_meta_fields s.
 Proof.
-  unfold sch_exec_wf. intros H. apply andb_true_iff in H. destruct H as [H _].
+  unfold sch_exec_wf. intros H. apply andb_true_iff in H. destruct H as [H _]. apply andb_true_iff in H. destruct H as [H _].
   apply andb_true_iff in H. destruct H as [H1 H2]. split.
   - now apply j_str_nodup_spec.
   - intros t Ht. rewrite forallb_forall in H2. specialize (H2 t Ht).
     destruct t; try exact I; intros f Hf; rewrite forallb_forall in H2; specialize (H2 f Hf); now apply negb_true_iff in H2.
 Qed.
 
-Lemma ek_ty_eqb_eq a : forall b, ek_ty_eqb a b = true -> a = b.
+Lemma sch_exec_wf_cov s : sch_exec_wf s = true -> sch_impl_covariant s = true.
+Proof. unfold sch_exec_wf. intros H. apply andb_true_iff in H. now destruct H as [_ H]. Qed.
+
+(* every object type that satisfies the type condition K satisfies the type condition J *)
+Definition ty_narrows (s : schema) (K J : str) : Prop :=
+  forall otn oimpls, ex_get_object s otn = Some oimpls ->
+    ex_type_applies s otn oimpls K = true -> ex_type_applies s otn oimpls J = true.
+
+Lemma ty_narrows_refl s K : ty_narrows s K K.
+Proof. intros otn oimpls _ H. exact H. Qed.
+
+Lemma sch_possible_incl_spec s K J : sch_possible_incl s K J = true -> ty_narrows s K J.
 Proof.
-  induction a as [x|x|a IH|a IH]; intros [y|y|b|b] H; cbn [ek_ty_eqb] in H; try discriminate;
-    try (apply streq_eq in H; now subst); f_equal; now apply IH.
+  unfold sch_possible_incl. intros H otn oimpls Hg Ha. rewrite forallb_forall in H.
+  destruct (get_object_inv _ _ _ Hg) as (desc & impls & dirs & ofs & b & Ht & ->).
+  specialize (H _ (sch_find_type_in _ _ _ Ht)). cbv beta iota in H. rewrite Ha in H. exact H.
 Qed.
 
 (* ---------------------------------------------------------------- the type of a field on the object type *)
@@ -167,18 +179,18 @@ Lemma meta_name_cases n : td_is_meta_name n = false ->
   streq n td_typename = false /\ streq n td_schema = false /\ streq n td_type = false.
 Proof. unfold td_is_meta_name. intros H. apply orb_false_iff in H. destruct H as [H H3]. apply orb_false_iff in H. tauto. Qed.
 
-Lemma field_type_stable s C otn oimpls n dC dO :
-  sch_names_unique s -> sch_no_meta_fields s ->
+Lemma field_type_narrows s C otn oimpls n dC dO :
+  sch_names_unique s -> sch_no_meta_fields s -> sch_impl_covariant s = true ->
   ex_get_object s otn = Some oimpls ->
   ex_type_applies s otn oimpls C = true ->
   td_type_field s C n = Some dC -> td_type_field s otn n = Some dO ->
-  existsb (streq n) (ek_refined_fields s) = false ->
-  fd_ty dC = fd_ty dO.
+  ty_narrows s (inner_named_type (fd_ty dO)) (inner_named_type (fd_ty dC)).
 Proof.
-  intros Hu Hm Hg Happ HC HO Href.
+  intros Hu Hm Hcv Hg Happ HC HO.
+  assert (Heq : fd_ty dC = fd_ty dO -> ty_narrows s (inner_named_type (fd_ty dO)) (inner_named_type (fd_ty dC)))
+    by (intros ->; apply ty_narrows_refl).
   destruct (get_object_inv _ _ _ Hg) as (desc & impls & dirs & ofs & b & Ht & ->).
   pose proof (sch_find_type_in _ _ _ Ht) as Hin.
-  assert (Hnr : ~ In n (ek_refined_fields s)) by (intros H; apply existsb_streq in H; congruence). clear Href.
   unfold ex_type_applies in Happ. destruct (sch_get_type s C) as [tC|] eqn:EC; [|discriminate].
   pose proof (sch_find_type_in _ _ _ EC) as HinC.
   (* the field is not declared on the selection set's parent type: a meta-field *)
@@ -203,63 +215,25 @@ Proof.
         apply streq_eq in RC. apply streq_eq in RO. subst C. rewrite RO in EC. rewrite Ht in EC. injection EC as <-. contradiction. }
   destruct tC as [| d1 nm1 impls1 dirs1 fs1 b1 | d1 nm1 impls1 dirs1 fs1 b1 | d1 nm1 dirs1 members1 b1 | |]; try discriminate.
   - (* object: the same type *)
-    apply streq_eq in Happ. subst C. congruence.
+    apply Heq. apply streq_eq in Happ. subst C. congruence.
   - (* interface *)
-    destruct (td_find_fd n fs1) as [d|] eqn:Ed; [|apply Hmeta; [reflexivity|exact I]].
+    destruct (td_find_fd n fs1) as [d|] eqn:Ed; [|apply Heq, Hmeta; [reflexivity|exact I]].
     assert (HdC : dC = d). { unfold td_type_field in HC. rewrite EC, Ed in HC. now injection HC. } subst dC.
     destruct (td_find_fd_in _ _ _ Ed) as (f & Hf & -> & Hn).
-    (* the refinement test of ExecKnown for (otn, C, f) *)
+    (* the test of sch_impl_covariant for (otn, C, f) *)
     apply existsb_streq in Happ. apply in_map_iff in Happ. destruct Happ as (i & Hi & Hiin).
-    pose proof (not_in_flat_map _ _ _ _ Hnr Hin) as H1. cbv beta iota in H1.
-    pose proof (not_in_flat_map _ _ _ _ H1 Hiin) as H2. cbv beta in H2. rewrite Hi, EC in H2.
-    pose proof (not_in_flat_map _ _ _ _ H2 Hf) as H3. cbv beta in H3. rewrite Hn in H3.
+    unfold sch_impl_covariant in Hcv. rewrite forallb_forall in Hcv. specialize (Hcv _ Hin). cbv beta iota in Hcv.
+    rewrite forallb_forall in Hcv. specialize (Hcv _ Hiin). cbv beta in Hcv. rewrite Hi, EC in Hcv.
+    rewrite forallb_forall in Hcv. specialize (Hcv _ Hf). cbv beta in Hcv. rewrite Hn in Hcv.
     unfold td_type_field in HO. rewrite Ht in HO.
     destruct (td_find_fd n ofs) as [od|] eqn:Eod.
-    + injection HO as <-. destruct (ek_ty_eqb (fd_ty od) (fd_ty (c_val f))) eqn:E.
-      * symmetry. now apply ek_ty_eqb_eq.
-      * exfalso. apply H3. now left.
+    + injection HO as <-. now apply sch_possible_incl_spec.
     + (* not declared on the object type: only a meta-field could be found there, but f has an ordinary name *)
       exfalso. pose proof (find_fd_meta s _ fs1 n (c_val f) Hm HinC eq_refl Ed) as Hnm.
       destruct (meta_name_cases _ Hnm) as (N1 & N2 & N3). rewrite N1, N2, N3 in HO. cbn [andb] in HO.
       destruct (td_is_query_root s otn); discriminate.
   - (* union *)
-    apply Hmeta; [reflexivity|exact I].
-Qed.
-
-(* ---------------------------------------------------------------- known_covariant on the nodes *)
-Lemma rs_mentions_field names a n args dirs t l :
-  rs_mentions names (RsField a n args dirs t l) = existsb (streq n) names || existsb (rs_mentions names) l.
-Proof. reflexivity. Qed.
-Lemma rs_mentions_inline names c dirs l : rs_mentions names (RsInline c dirs l) = existsb (rs_mentions names) l.
-Proof. reflexivity. Qed.
-
-Lemma rs_occ_mentions names x l :
-  existsb (rs_mentions names) l = false -> rs_occ x l -> rs_mentions names x = false.
-Proof.
-  intros H Ho. induction Ho as [l Hin|y l Hy _ IH].
-  - destruct (rs_mentions names x) eqn:E; [|reflexivity].
-    assert (existsb (rs_mentions names) l = true) by (apply existsb_exists; now exists x). congruence.
-  - apply IH. assert (Hy' : rs_mentions names y = false).
-    { destruct (rs_mentions names y) eqn:E; [|reflexivity].
-      assert (existsb (rs_mentions names) l = true) by (apply existsb_exists; now exists y). congruence. }
-    destruct y as [a n args dirs t sub|n dirs|c dirs sub]; cbn [rs_sels].
-    + rewrite rs_mentions_field in Hy'. now apply orb_false_iff in Hy'.
-    + reflexivity.
-    + now rewrite rs_mentions_inline in Hy'.
-Qed.
-
-Lemma not_covariant_node s d g :
-  known_covariant s d = false -> doc_node d g -> rs_is_field g = true ->
-  existsb (streq (rs_name g)) (ek_refined_fields s) = false.
-Proof.
-  unfold known_covariant. intros H (l & Hl & Ho) Hf.
-  assert (Hl' : existsb (rs_mentions (ek_refined_fields s)) l = false).
-  { destruct (existsb (rs_mentions (ek_refined_fields s)) l) eqn:E; [|reflexivity].
-    assert (existsb (existsb (rs_mentions (ek_refined_fields s))) (rd_all_sels d) = true) by (apply existsb_exists; now exists l).
-    congruence. }
-  pose proof (rs_occ_mentions _ _ _ Hl' Ho) as Hm.
-  destruct g as [a n args dirs t sub|n dirs|c dirs sub]; try discriminate.
-  rewrite rs_mentions_field in Hm. now apply orb_false_iff in Hm.
+    apply Heq, Hmeta; [reflexivity|exact I].
 Qed.
 
 (* a response key names one field *)
@@ -352,7 +326,7 @@ Variables (s : schema) (d : rdoc) (vars : jmap).
 Let cx := ex_cx_for s d vars.
 Hypothesis Hu : sch_names_unique s.
 Hypothesis Hm : sch_no_meta_fields s.
-Hypothesis Hcov : known_covariant s d = false.
+Hypothesis Hcv : sch_impl_covariant s = true.
 Hypothesis Hfr : frags_typed s (rd_frags d).
 
 Definition tsel_ok (otn : str) (oimpls : list str) (x : rsel) : Prop :=
@@ -375,34 +349,37 @@ Proof.
     exists (rfr_cond fr). split; [|exact Ha]. specialize (Hfr fr Hin). rewrite Forall_forall in Hfr. now apply Hfr.
 Qed.
 
-(* the fields of one group, on an object type that has the field: one name, one type *)
+(* the fields of one group, on an object type that has the field: one name; the type on the object type narrows
+   the type each of them was typed with *)
+Definition narrowed_by (t : ty) (g : rsel) : Prop :=
+  ty_narrows s (inner_named_type t) (inner_named_type (rs_dty g)).
+
 Lemma group_types otn oimpls f0 rest fdef :
   ex_get_object s otn = Some oimpls ->
   Forall (tfield_ok otn oimpls) (f0 :: rest) -> Forall (fun g => rs_name g = rs_name f0) (f0 :: rest) ->
   td_type_field s otn (rs_name f0) = Some fdef ->
-  Forall (fun g => rs_dty g = fd_ty fdef) (f0 :: rest).
+  Forall (narrowed_by (fd_ty fdef)) (f0 :: rest).
 Proof.
   intros Hg Hok Hnames Ht.
   apply Forall_forall. intros g Hin. rewrite Forall_forall in Hok, Hnames.
   destruct (Hok g Hin) as (Fg & Dg & C & Tg & Ag). pose proof (Hnames g Hin) as Hn.
-  destruct g as [a n args dirs t sub|n dirs|c dirs sub]; try discriminate. cbn [rs_dty rs_name] in *.
+  destruct g as [a n args dirs t sub|n dirs|c dirs sub]; try discriminate. unfold narrowed_by. cbn [rs_dty rs_name] in *.
   apply rs_typed_field in Tg. destruct Tg as [(dC & HdC & ->) _].
-  eapply field_type_stable; try eassumption.
-  - now rewrite Hn.
-  - apply (not_covariant_node s d (RsField a n args dirs (fd_ty dC) sub)); auto.
+  eapply field_type_narrows; try eassumption. now rewrite Hn.
 Qed.
 
 (* the merged sub-selections, on the object type chosen by complete_value *)
 Lemma sub_typed otn oimpls otn' oimpls' fields n :
-  Forall (fun g => tfield_ok otn oimpls g /\ inner_named_type (rs_dty g) = n) fields ->
+  Forall (fun g => tfield_ok otn oimpls g /\ ty_narrows s n (inner_named_type (rs_dty g))) fields ->
+  ex_get_object s otn' = Some oimpls' ->
   ex_type_applies s otn' oimpls' n = true ->
   Forall (tsel_ok otn' oimpls') (flat_map rs_sels fields).
 Proof.
-  intros H Ha. apply Forall_forall. intros y Hy. apply in_flat_map in Hy. destruct Hy as (g & Hg & Hy).
+  intros H Hgo Ha. apply Forall_forall. intros y Hy. apply in_flat_map in Hy. destruct Hy as (g & Hg & Hy).
   rewrite Forall_forall in H. destruct (H g Hg) as [(Fg & Dg & C & Tg & _) Hn]. split; [eapply doc_node_sub; eassumption|].
   destruct g as [a nm args dirs t sub|nm dirs|c dirs sub]; try discriminate. cbn [rs_sels rs_dty] in *.
-  apply rs_typed_field in Tg. destruct Tg as [_ Hsub]. rewrite Forall_forall in Hsub. exists n. split; [|exact Ha].
-  rewrite <- Hn. now apply Hsub.
+  apply rs_typed_field in Tg. destruct Tg as [_ Hsub]. rewrite Forall_forall in Hsub. exists (inner_named_type t).
+  split; [now apply Hsub|]. now apply (Hn otn' oimpls').
 Qed.
 
 End Exec.
